@@ -246,6 +246,15 @@ impl E2Run for ArpRes {
         });
         let mut out = Outcome::default();
         finish(&state, &mut out);
+        if std::env::var("VERIF_TRACE").is_ok() {
+            eprintln!("claims {:?}\npattern {:?}", claims.lock().unwrap(), pattern.lock().unwrap());
+            for r in results.lock().unwrap().iter() {
+                eprintln!("res {r:?}");
+            }
+            for f in arp_frames.lock().unwrap().iter() {
+                eprintln!("arp {f:?}");
+            }
+        }
         if status != Some(ExitStatus::Exited) {
             out.violate(Violation::new("harness-panic", "unexpected-exit", format!("arp scenario ended with {status:?}")));
             return out;
@@ -306,7 +315,11 @@ impl E2Run for ArpRes {
                         // (frame delays are at most 90 ms: a reply sent by 1900 ms is there before the 2000 ms deadline)
                         !f.request && f.sender_ip == r.effective && f.dest == Some(my_mac) && f.copies > 0 && f.time_ms >= r.start_ms && f.time_ms <= r.start_ms + 1900
                     });
-                    if req_through && rep_through && *om != r.machine {
+                    // concurrent resolvers of one address share the table: when an earlier one
+                    // gives up it caches the failure for all of them, so only the earliest
+                    // resolver of an address on a machine has a retry budget of its own
+                    let earliest = results.iter().filter(|x| x.machine == r.machine && x.effective == r.effective).map(|x| x.start_ms).min() == Some(r.start_ms);
+                    if req_through && rep_through && *om != r.machine && earliest {
                         out.violate(Violation::new(
                             "resolution-failed",
                             "although-an-exchange-got-through",
